@@ -4,6 +4,16 @@ import json
 import sys
 
 LEVEL_TEXT = {
+    'C01': ("Machine-checked on the executable model of Signal::Impl: an emission with non-re-entrant slot bodies logs EXACTLY one invocation per connected, "
+            "unblocked connection, in table order, with bound values followed by the leading emitted values the callable needs, and one queued invocation per "
+            "deferred connection (C01_emit_exact); with arbitrary re-entrant bodies never twice (C01_at_most_once); connect/disconnect/block change exactly the "
+            "entry they name and ids are fresh, so the table is the finite map of connections made and not yet disconnected, in every reachable world. "
+            "Tie: differential execution of generated histories (all five flavours, 4 signal signatures incl. const-ref and by-value class types, bound "
+            "arguments, blocks, moves, recycled positions) under ASan/UBSan.", '6/C01'),
+    'C09': ("Machine-checked for ARBITRARY re-entrant slot bodies and nesting depth: in one emission no connection is invoked twice; during the walk no entry "
+            "of the emitting Impl is erased and the Impl stays alive (no executing callable destroyed, no freed table walked); when emit returns - also by a "
+            "library exception - every requested disconnect has been executed and nothing is left emitting. Memory safety of the real code is observed "
+            "(ASan + a destroyed-while-running canary) on generated re-entrant histories, not proved.", '6/C09'),
     'C12': ("Machine-checked theorems on the executable model of the generational index array and of Signal::Impl/ConnectionHandle: ids are never "
             "re-issued, a stale id stays stale for ever under any history (any re-entrant slot bodies), uses through stale ids are rejected or have no "
             "effect, operator== is identity; the 2^32 wrap-around is proved to be real (C12_wrap_refuted, known finding). The model is tied to the code by "
